@@ -24,7 +24,7 @@ func init() {
 		ID: "C03",
 		Explanation: "decides validate-before-consume: positions are validated before an operation is built, nil values are refused before construction, the operation id is rolled back on every failing path, a failed local execution appends nothing to the push buffer, and no result is used before its error is checked. NOT decided: value-level equality with the plain data structure, the bounds arithmetic inside the validators, nil values nested inside containers.",
 		Assumptions: []string{"validate* functions of the snapshots are correct"},
-		Rules:       []ruleFn{ruleR03_1, ruleR03_2, ruleR03_3, ruleR03_4, ruleR03_5, ruleR03_6, ruleR04_5, ruleR04_4},
+		Rules:       []ruleFn{ruleR03_1, ruleR03_2, ruleR03_3, ruleR03_4, ruleR03_5, ruleR03_6, ruleR03_7, ruleR04_5, ruleR04_4},
 	})
 }
 
